@@ -301,7 +301,7 @@ def apply_rewrite(text, frm, to):
 LOOP_KW = ("for", "while", "loop")
 
 
-def splice_fn(text, spec=None, ret=None, loops=None, before=None, after=None, rewrites=None, strip_pub=False, log=None, sel="", forloops=None, loopends=None):
+def splice_fn(text, spec=None, ret=None, loops=None, before=None, after=None, rewrites=None, strip_pub=False, log=None, sel="", forloops=None, loopends=None, bodystart=None):
     """text = verbatim fn item. Returns (new_text, segments) where segments = list of (kind, label, line_lo, line_hi)
     relative to new_text, for mapping verifier diagnostics back to named clauses."""
     log = log if log is not None else []
@@ -426,6 +426,8 @@ def splice_fn(text, spec=None, ret=None, loops=None, before=None, after=None, re
         edits.append((tend, ")", 0))
     if spec:
         edits.append((ct[b][2], "\n/*@SPEC-BEGIN*/\n" + "\n".join(spec) + "\n/*@SPEC-END*/\n", 0))
+    if bodystart:
+        edits.append((ct[b][3], "\n/*@GHOST-BEGIN body-start*/\n" + "\n".join(bodystart) + "\n/*@GHOST-END*/\n", 0))
     if loops or loopends:
         loops = loops or []
         e = match_brace(ct, b)
@@ -546,7 +548,7 @@ def compose(template_text, repo_root, read_file):
             args = {k: v.strip() for k, v in args.items()}
             if "file" not in args or "sel" not in args:
                 raise Undecided(f"bad //@ITEM line: {l}")
-            spec, loops, before, after, rew, forloops, loopends = [], [], [], [], [], [], []
+            spec, loops, before, after, rew, forloops, loopends, bodystart = [], [], [], [], [], [], [], []
             cur = None
             i += 1
             while i < len(lines) and not lines[i].strip().startswith("//@END"):
@@ -558,6 +560,8 @@ def compose(template_text, repo_root, read_file):
                 elif s.split()[0] == "//@LOOP":
                     cur = []
                     loops.append((int(s.split()[1]), cur))
+                elif s.startswith("//@BODYSTART"):     # lines inserted right after the function body's opening brace
+                    cur = bodystart
                 elif s.startswith("//@LOOPEND"):
                     cur = []
                     loopends.append((int(s.split()[1]), cur))
@@ -596,7 +600,7 @@ def compose(template_text, repo_root, read_file):
             is_fn = "fn " in args["sel"] and not args["sel"].startswith(("struct", "enum", "const", "static", "type"))
             if is_fn:
                 new_text = splice_fn(item_text, spec=spec, ret=args.get("ret"), loops=loops, before=before, after=after,
-                                     rewrites=rew, strip_pub=(args.get("strip", "pub") == "pub"), log=rewrites_log, sel=args["sel"], forloops=forloops, loopends=loopends)
+                                     rewrites=rew, strip_pub=(args.get("strip", "pub") == "pub"), log=rewrites_log, sel=args["sel"], forloops=forloops, loopends=loopends, bodystart=bodystart)
             else:
                 new_text = item_text
                 for rule, frm, to in rew:
